@@ -96,4 +96,18 @@ def bip85Bip39Indexes (hm : Bytes → Bytes → Bytes) (H : Bytes → Bytes) (ke
   | none => none
   | some n => bip39Indexes H (bitsOfBytes ((bip85Entropy hm key).take n))
 
+/-- `bip85.bytes_entropy_from_root_key` (application HEX, 128169') after the derivation: the bounds check of the
+    generated `BIP85_BOUNDS`, then the leading `n` bytes of the HMAC -/
+def bip85Hex (hm : Bytes → Bytes → Bytes) (key : Bytes) (n : Nat) : Option Bytes :=
+  match Gen.Mnemonic.BIP85_BOUNDS.lookup "bytes_entropy_from_root_key" with
+  | some (lo, hi) => if lo ≤ n ∧ n ≤ hi then some ((bip85Entropy hm key).take n) else none
+  | none => none
+
+/-- the derivation path of a sized application (HEX, PWD BASE64, PWD BASE85): m / 83696968' / app' / size' / index' -/
+def bip85SizedPath (fn : String) (size index : Nat) : Option (List Nat) :=
+  match Gen.Mnemonic.BIP85_APPLICATIONS.lookup fn, Gen.Mnemonic.BIP85_BOUNDS.lookup fn with
+  | some app, some (lo, hi) =>
+    if lo ≤ size ∧ size ≤ hi then some [Gen.Mnemonic.BIP85_PURPOSE, app, size, index] else none
+  | _, _ => none
+
 end Btc.C13
